@@ -330,6 +330,23 @@ def coverage(chk, lp, q, w):
                 if silent or not probing:
                     bad = bad or "the non-empty pair (%d, %d) is dropped without a probe" % (s0, e0)
                     continue
+                # a probed pair is given up (nothing pushed back, or the loop left) only on what the probe returned: two paths
+                # that agree on every condition over the awaited probe, one pushing the halves and one not, abandon the
+                # bisection on something else (a probe budget, a counter) and lose the indices of the pair
+                def _sig(p):
+                    return frozenset(c for c in p[0] if find(c[0], lambda x: x[0] == "await"))
+                def _pushing(p):
+                    if p[1] != "next":
+                        return False
+                    try:
+                        pr = _pushes(sym.rebuild(p[2][q], sub))
+                    except Exception:
+                        return None
+                    return bool(pr)
+                cls = [(_sig(p), _pushing(p)) for p in probing]
+                for i, (sg, pu) in enumerate(cls):
+                    if pu is True and any(sg2 == sg and pu2 is False for sg2, pu2 in cls):
+                        bad = bad or "after the probe of the pair (%d, %d) the bisection is abandoned on a condition other than the probe's result (the pair's halves are not pushed back)" % (s0, e0)
                 for conds, kind, val in probing:
                     mids = set()
                     for c in conds:
